@@ -307,6 +307,35 @@ func (e *Engine) VerifyFunc(c *Contract) (res *FuncResult) {
 	if c.Opts["arith"] == "checked" {
 		ex.arith = true
 	}
+	ex.callCells = map[string]*Cell{}
+	var scan func(e *SExpr)
+	scan = func(e *SExpr) {
+		if e == nil {
+			return
+		}
+		if e.Op == "call" && e.Args[0].Op == "id" && e.Args[0].Name == "calls" && len(e.Args) == 2 && e.Args[1].Op == "str" {
+			if ex.callCells[e.Args[1].Name] == nil {
+				ex.callCells[e.Args[1].Name] = ex.newCell("$calls_"+e.Args[1].Name, types.Typ[types.Int], 0)
+			}
+		}
+		for _, a := range e.Args {
+			scan(a)
+		}
+	}
+	for _, cl := range c.Requires {
+		scan(cl.E)
+	}
+	for _, cl := range c.Ensures {
+		scan(cl.E)
+	}
+	for _, cls := range c.LoopInv {
+		for _, cl := range cls {
+			scan(cl.E)
+		}
+	}
+	for _, ca := range c.Asserts {
+		scan(ca.Clause.E)
+	}
 	defer func() {
 		if r := recover(); r != nil {
 			switch x := r.(type) {
@@ -335,6 +364,9 @@ func (e *Engine) VerifyFunc(c *Contract) (res *FuncResult) {
 		v := FreshVal("fv_"+fv.Name(), fv.Type())
 		ex.typeFacts(st, v)
 		free = append(free, v)
+	}
+	for _, cc := range ex.callCells {
+		st.cells[cc] = Val{T: cc.T, L: []*Term{Int(0)}}
 	}
 	entry := st.clone()
 	ex.entry = entry
